@@ -532,7 +532,8 @@ class SlotNode(BaseNode):
         #
         # Hence, even in the "django" mode, we MUST use slots of the context of the parent component.
         if (
-            component_ctx.registry.settings.context_behavior == ContextBehavior.DJANGO
+            slot_fill.is_filled
+            and component_ctx.registry.settings.context_behavior == ContextBehavior.DJANGO
             and component_ctx.outer_context is not None
             and _COMPONENT_CONTEXT_KEY in component_ctx.outer_context
         ):
